@@ -854,10 +854,11 @@ class KafkaClient(object):
 
     def _handle_responses(self, responses, fail_on_error, callback=None, consumer_group=None):
         out = []
+        error = None  # first error to raise, once every response was examined
         for resp in responses:
             try:
                 BrokerResponseError.raise_for_errno(resp.error, resp)
-            except (UnknownTopicOrPartitionError, NotLeaderForPartitionError):
+            except (UnknownTopicOrPartitionError, NotLeaderForPartitionError) as e:
                 log.warning(
                     "Clearing cached metadata for topic %r due to error=%s in %r",
                     resp.topic,
@@ -865,9 +866,9 @@ class KafkaClient(object):
                     resp,
                 )
                 self.reset_topic_metadata(resp.topic)
-                if fail_on_error:
-                    raise
-            except (CoordinatorLoadInProgress, NotCoordinator, CoordinatorNotAvailable):
+                if fail_on_error and error is None:
+                    error = e
+            except (CoordinatorLoadInProgress, NotCoordinator, CoordinatorNotAvailable) as e:
                 log.warning(
                     "Clearing cached metadata for group %r due to error=%s in %s",
                     consumer_group,
@@ -875,16 +876,21 @@ class KafkaClient(object):
                     resp,
                 )
                 self.reset_consumer_group_metadata(consumer_group)
-                if fail_on_error:
-                    raise
-            except BrokerResponseError:
-                if fail_on_error:
-                    raise
+                if fail_on_error and error is None:
+                    error = e
+            except BrokerResponseError as e:
+                if fail_on_error and error is None:
+                    error = e
 
+            if error is not None:
+                # The remaining responses are only examined for stale metadata
+                continue
             if callback is not None:
                 out.append(callback(resp))
             else:
                 out.append(resp)
+        if error is not None:
+            raise error
         return out
 
     def _get_brokerclient(self, node_id):
